@@ -12,7 +12,7 @@ use std::cmp::Ordering;
 pub const RULE: &str = "generated lists (length 0..40; numbers with duplicates and +-0, strings, nested lists, mixed types, tagged [key, tag] pairs), strings (ASCII, multi-byte, astral, combining sequences, empty), records and integer / negative / out-of-range index, chunk-size and slice arguments; every law of the statement is evaluated through the evaluator (built-in calls, index / field access, spread syntax) and checked on the serialised results against harness-side definitions. Non-trivial = a list of length >= 3 containing a duplicate, or a string with a non-ASCII character; distinct by the serialised case.";
 pub const ASSUMPTIONS: &[&str] = &[
     "a string's character sequence is its sequence of Unicode scalar values (what indexing and spreading expose)",
-    "a fractional index denotes the position it truncates to, towards zero (the evaluator converts the index with `as i64`; the quantifier lists fractional index arguments, so some reading has to decide them): l[-0.5] is l[0], l[-1.5] is l[-1]",
+    "a fractional index denotes the position it truncates to, towards zero (the evaluator converts the index with `as i64`; the quantifier lists fractional index arguments, so some reading has to decide them): l[-0.5] is l[0], l[-1.5] is l[-1]; the bounds of range are read the same way (range(-2.5, 1) is [-2, -1, 0])",
     "fractional slice bounds, negative slice bounds and out-of-range slice bounds have no law in the statement; they are exercised only for absence of crashes (C01) - except that a string and the list of its characters must agree on whether a slice beyond the end succeeds",
     "stability is observable only between elements that compare equal but are distinguishable (0 / -0, tagged pairs)",
 ];
@@ -333,6 +333,11 @@ impl Check for ListLaws {
         want(&sess, "index:below-minus-len", cls, "l[0 - len(l) - 1]", &MV::Null)?;
         if len > 1 {
             want(&sess, "index:second-last", cls, "l[-2]", &l[len - 2])?;
+        }
+        // fractional bounds denote the whole numbers they truncate to (towards zero), like indices
+        for (a_src, b_src, lo, hi) in [("0 - 2.5", "1", -2i64, 1i64), ("0 - 3", "0 - 0.5", -3, 0), ("0 - 1.5", "0 - 0.5", -1, 0), ("0.9", "2.1", 0, 2), ("0 - 0.9", "0.9", 0, 0), ("1.5", "4.5", 1, 4)] {
+            let want_r: Vec<MV> = (lo..hi).map(|v| num(v as f64)).collect();
+            want(&sess, "range:fractional-bounds", cls, &format!("range({}, {})", a_src, b_src), &MV::List(want_r))?;
         }
         // range
         let (ra, rb) = (c.i as i64, c.i as i64 + c.n as i64);
